@@ -32,8 +32,12 @@ pub fn check_moov(o: &mut Outcome, d: &[u8], tree: &[Node], m: &Movie, ctx: &str
     if mv.payload_len != want_len {
         o.fail("mvhd", format!("mvhd.payload_len={}.{}", mv.payload_len, ctx), format!("mvhd v{} payload {} bytes, spec {}", mv.version, mv.payload_len, want_len));
     }
-    if mv.flags != 0 || mv.rate != 0x0001_0000 || mv.volume != 0x0100 || !mv.reserved_ok || !mv.predefined_ok {
-        o.fail("mvhd", format!("mvhd.constants.{}", ctx), format!("mvhd flags {:#x} rate {:#x} volume {:#x} reserved_zero {} pre_defined_zero {}", mv.flags, mv.rate, mv.volume, mv.reserved_ok, mv.predefined_ok));
+    if mv.flags != 0 || !mv.reserved_ok || !mv.predefined_ok {
+        o.fail("mvhd", format!("mvhd.reserved.{}", ctx), format!("mvhd flags {:#x} reserved_zero {} pre_defined_zero {}", mv.flags, mv.reserved_ok, mv.predefined_ok));
+    }
+    if mv.rate != 0x0001_0000 || mv.volume != 0x0100 {
+        // template fields (typical values 1.0 / full volume), not reserved bits: reported as a note only
+        o.class("note:mvhd_rate_or_volume_not_default");
     }
     if mv.matrix != IDENTITY {
         o.fail("mvhd", format!("mvhd.matrix.{}", ctx), format!("mvhd matrix {:x?}", mv.matrix));
@@ -76,8 +80,11 @@ pub fn check_moov(o: &mut Outcome, d: &[u8], tree: &[Node], m: &Movie, ctx: &str
             o.fail("tkhd", format!("tkhd.track_id.{}", ctx), format!("track id {} zero or duplicate (seen {:?})", tk.track_id, ids));
         }
         ids.push(tk.track_id);
-        if tk.reserved1 != 0 || !tk.reserved2_ok || tk.reserved3 != 0 || tk.layer != 0 || tk.alt_group != 0 {
-            o.fail("tkhd", format!("tkhd.reserved.{}.{}", kind, ctx), format!("{} tkhd reserved1 {} reserved2_zero {} reserved3 {} layer {} alternate_group {}", kind, tk.reserved1, tk.reserved2_ok, tk.reserved3, tk.layer, tk.alt_group));
+        if tk.reserved1 != 0 || !tk.reserved2_ok || tk.reserved3 != 0 {
+            o.fail("tkhd", format!("tkhd.reserved.{}.{}", kind, ctx), format!("{} tkhd reserved1 {} reserved2_zero {} reserved3 {}", kind, tk.reserved1, tk.reserved2_ok, tk.reserved3));
+        }
+        if tk.layer != 0 || tk.alt_group != 0 {
+            o.class("note:tkhd_layer_or_alternate_group_not_default");
         }
         let want_vol = if t.is_video { 0 } else { 0x0100 };
         if tk.volume != want_vol {
@@ -121,7 +128,7 @@ pub fn check_moov(o: &mut Outcome, d: &[u8], tree: &[Node], m: &Movie, ctx: &str
         let minf = tr.path(&[b"mdia", b"minf"]).unwrap();
         if let Some(v) = minf.kid(b"vmhd") {
             let p = v.payload(d);
-            if p.len() != 12 || p[0] != 0 || p[4..].iter().any(|&b| b != 0) {
+            if p.len() != 12 || p[0] != 0 {
                 o.fail("vmhd", format!("vmhd.layout.{}", ctx), format!("vmhd payload {}", hex(p, 16)));
             }
             if p.len() >= 4 && p[1..4] != [0, 0, 1] {
@@ -130,7 +137,7 @@ pub fn check_moov(o: &mut Outcome, d: &[u8], tree: &[Node], m: &Movie, ctx: &str
         }
         if let Some(v) = minf.kid(b"smhd") {
             let p = v.payload(d);
-            if p.len() != 8 || p.iter().any(|&b| b != 0) {
+            if p.len() != 8 || p[0..4] != [0, 0, 0, 0] || p[6..8] != [0, 0] {
                 o.fail("smhd", format!("smhd.layout.{}", ctx), format!("smhd payload {}", hex(p, 12)));
             }
         }
@@ -164,26 +171,24 @@ pub fn check_moov(o: &mut Outcome, d: &[u8], tree: &[Node], m: &Movie, ctx: &str
         let e = &t.entry;
         let pre = &e.prefix;
         if t.is_video {
-            let ok = pre[0..6] == [0; 6]
-                && e.data_ref_index == 1
-                && pre[8..24] == [0; 16]
-                && pre[28..32] == [0, 0x48, 0, 0]
-                && pre[32..36] == [0, 0x48, 0, 0]
-                && pre[36..40] == [0; 4]
-                && pre[40..42] == [0, 1]
-                && pre[42] <= 31
-                && pre[74..76] == [0, 0x18]
-                && pre[76..78] == [0xff, 0xff];
+            // reserved / pre_defined fields only; resolution, frame_count and depth are template fields (note)
+            let ok = pre[0..6] == [0; 6] && e.data_ref_index == 1 && pre[8..24] == [0; 16] && pre[36..40] == [0; 4] && pre[42] <= 31 && pre[76..78] == [0xff, 0xff];
             if !ok {
-                o.fail("visual_entry", format!("visual_entry.constants.{}.{}", fourcc(&e.typ), ctx), format!("VisualSampleEntry fixed fields deviate: {}", hex(pre, 78)));
+                o.fail("visual_entry", format!("visual_entry.reserved.{}.{}", fourcc(&e.typ), ctx), format!("VisualSampleEntry reserved/pre_defined fields deviate: {}", hex(pre, 78)));
+            }
+            if !(pre[28..32] == [0, 0x48, 0, 0] && pre[32..36] == [0, 0x48, 0, 0] && pre[40..42] == [0, 1] && pre[74..76] == [0, 0x18]) {
+                o.class("note:visual_entry_template_fields_not_default");
             }
             if want_dims.0 <= 65535 && want_dims.1 <= 65535 && (e.width as u32 != want_dims.0 || e.height as u32 != want_dims.1) {
                 o.fail("visual_entry", format!("visual_entry.dims.{}.{}", fourcc(&e.typ), ctx), format!("sample entry {}x{} but configured {}x{}", e.width, e.height, want_dims.0, want_dims.1));
             }
         } else {
-            let ok = pre[0..6] == [0; 6] && e.data_ref_index == 1 && pre[8..16] == [0; 8] && e.samplesize == 16 && pre[20..24] == [0; 4];
+            let ok = pre[0..6] == [0; 6] && e.data_ref_index == 1 && pre[8..16] == [0; 8] && pre[20..24] == [0; 4];
             if !ok {
-                o.fail("audio_entry", format!("audio_entry.constants.{}.{}", fourcc(&e.typ), ctx), format!("AudioSampleEntry fixed fields deviate: {}", hex(pre, 28)));
+                o.fail("audio_entry", format!("audio_entry.reserved.{}.{}", fourcc(&e.typ), ctx), format!("AudioSampleEntry reserved/pre_defined fields deviate: {}", hex(pre, 28)));
+            }
+            if e.samplesize != 16 {
+                o.class("note:audio_entry_samplesize_not_16");
             }
         }
         if let Some(err) = &e.config_err {
@@ -220,7 +225,8 @@ pub fn check_moov(o: &mut Outcome, d: &[u8], tree: &[Node], m: &Movie, ctx: &str
                 }
             }
             ConfigRecord::Esds { vf, object_type, stream_type_byte, sl_predefined, lens_consistent, es_flags, .. } => {
-                if *vf != 0 || *object_type != 0x40 || *stream_type_byte != 0x15 || *sl_predefined != Some(2) || !lens_consistent || *es_flags != 0 {
+                let _ = es_flags; // optional ES_Descriptor fields are legal; the decoder skips them
+                if *vf != 0 || *object_type != 0x40 || *stream_type_byte != 0x15 || *sl_predefined != Some(2) || !lens_consistent {
                     o.fail("esds", format!("esds.layout.{}", ctx), format!("esds vf {:#x} objectType {:#x} streamType byte {:#x} SL predefined {:?} nested lengths consistent {}", vf, object_type, stream_type_byte, sl_predefined, lens_consistent));
                 }
             }
@@ -372,7 +378,7 @@ pub fn def() -> PropertyDef {
                and the AV1/VP9/Opus bindings: size, version, flags, reserved bits, field positions. Non-trivial = audio present, non-H.264 codec, or fragmented",
         assumptions: &[
             "when a box's size clause fails with a listed signature its remaining fields are judged at the positions that deviation implies (tkhd)",
-            "vmhd flags != 1 is only reported as a note (not among size/version/reserved/positions)",
+            "vmhd flags != 1 and template fields with customary defaults (mvhd rate/volume, tkhd layer/alternate_group, 72 dpi, frame_count, depth, samplesize) are only reported as notes: they are not among size/version/reserved bits/field positions",
         ],
         subs: vec![
             Box::new(PSub { name: "progressive", quick: 20000, thorough: 600000, strat, eval: eval_prog }),
